@@ -37,7 +37,7 @@ VARIABLES
   par,    \* TRUE between `par` and `sync`
   confs   \* multi-thread phase: set of [br, pend] explaining the log so far
 
-vars == <<store, borrow, guards, dropped, returned, nextIdent, call, outcome, l, dead, ok, par, confs>>
+vars == <<store, borrow, guards, dropped, returned, nextIdent, call, outcome, iters, l, dead, ok, par, confs>>
 
 Ev == Rec[l]
 Is(e) == l <= Len(Rec) /\ Ev.ev = e /\ l' = l + 1
@@ -51,7 +51,7 @@ TrReset ==
   /\ Is("reset")
   /\ store' = [id \in Ids |-> Absent] /\ borrow' = [id \in Ids |-> Free] /\ guards' = <<>>
   /\ dropped' = {} /\ returned' = {} /\ nextIdent' = 1
-  /\ call' = C("init", 0, <<0, 0>>, 0, <<>>, <<>>) /\ outcome' = Unit
+  /\ call' = C("init", 0, <<0, 0>>, 0, <<>>, <<>>) /\ outcome' = Unit /\ iters' = <<>>
   /\ dead' = FALSE /\ ok' = OkInit /\ par' = FALSE /\ confs' = {}
 
 \* ---- single-threaded calls -----------------------------------------------------
@@ -59,7 +59,8 @@ MutOps   == {"insert", "insert_by_id", "remove", "remove_by_id", "or_insert", "o
              "get_mut", "get_mut_raw", "setup", "exec", "exec_panic"}
 GrantOps == FetchOps \cup {"system_data", "meta_iter", "meta_iter_mut"}
 GuardOps == {"drop", "clone", "unwind", "write"}
-KnownOps == MutOps \cup GrantOps \cup GuardOps \cup {"has_value", "has_value_raw"}
+IterOps  == {"miter_new", "miter_new_mut", "miter_next", "miter_drop"}
+KnownOps == MutOps \cup GrantOps \cup GuardOps \cup IterOps \cup {"has_value", "has_value_raw"}
 Distinct(s) == \A i, j \in DOMAIN s : i # j => s[i] # s[j]
 FreshGs(s) == Distinct(s) /\ \A i \in DOMAIN s : s[i] # 0 /\ s[i] \notin DOMAIN guards
 
@@ -75,10 +76,20 @@ Pre(e) ==
   /\ (e.op = "write" => guards[e.gs[1]].kind = "w")
   /\ (e.op = "clone" => (Len(e.gs) >= 1 /\ e.gs[1] \in DOMAIN guards /\ guards[e.gs[1]].cl /\ FreshGs(Tail(e.gs))))
   /\ (e.op = "unwind" => (e.gs # <<>> /\ SeqToSet(e.gs) \subseteq DOMAIN guards))
+  /\ (e.op \in {"miter_new", "miter_new_mut"} => (Len(e.gs) = 1 /\ e.gs[1] # 0 /\ e.gs[1] \notin DOMAIN iters
+                                                   /\ \A i \in DOMAIN e.shape : e.shape[i].t \in Types))
+  /\ (e.op \in {"miter_next", "miter_drop"} => (Len(e.gs) >= 1 /\ e.gs[1] \in DOMAIN iters))
+  /\ (e.op = "miter_next" => FreshGs(Tail(e.gs)))
   /\ (e.op \in {"system_data", "meta_iter", "meta_iter_mut", "setup", "exec", "exec_panic"}
         => \A i \in DOMAIN e.shape : e.shape[i].t \in Types)
 
-Dispatch(e) ==
+DispatchIter(e) ==
+  \/ e.op = "miter_new" /\ MIterNew(e.gs[1], [i \in DOMAIN e.shape |-> e.shape[i].t], "r")
+  \/ e.op = "miter_new_mut" /\ MIterNew(e.gs[1], [i \in DOMAIN e.shape |-> e.shape[i].t], "w")
+  \/ e.op = "miter_next" /\ MIterNext(e.gs[1], Tail(e.gs))
+  \/ e.op = "miter_drop" /\ MIterDrop(e.gs[1])
+
+DispatchCall(e) ==
   LET id == <<e.ty, e.dy>> IN
   \/ e.op = "insert" /\ Insert(e.targ, e.p)
   \/ e.op = "insert_by_id" /\ InsertById(e.targ, id, e.p)
@@ -107,6 +118,8 @@ Dispatch(e) ==
   \/ e.op = "meta_iter" /\ MetaIter([i \in DOMAIN e.shape |-> e.shape[i].t], "r", e.gs)
   \/ e.op = "meta_iter_mut" /\ MetaIter([i \in DOMAIN e.shape |-> e.shape[i].t], "w", e.gs)
 
+Dispatch(e) == (e.op \notin IterOps /\ DispatchCall(e) /\ UNCHANGED iters) \/ (e.op \in IterOps /\ DispatchIter(e))
+
 IsBP(o) == o.k = "panic" /\ o.why = "borrow"
 NoB(c)  == [c EXCEPT !.b = ""]
 GStruct(g) == [g |-> g.g, ty |-> g.ty, dy |-> g.dy, kind |-> g.kind]
@@ -128,16 +141,16 @@ ObsTyped(obs)  == \A k \in DOMAIN obs.cells : obs.cells[k].here => obs.cells[k].
 TrCall ==
   /\ Is("call")
   /\ UNCHANGED <<par, confs>>
-  /\ IF dead THEN UNCHANGED <<store, borrow, guards, dropped, returned, nextIdent, call, outcome, dead, ok>>
+  /\ IF dead THEN UNCHANGED <<store, borrow, guards, dropped, returned, nextIdent, call, outcome, iters, dead, ok>>
      ELSE IF ~Pre(Ev)
      THEN /\ dead' = TRUE /\ ok' = [ok EXCEPT !.tool = FALSE]
-          /\ UNCHANGED <<store, borrow, guards, dropped, returned, nextIdent, call, outcome>>
+          /\ UNCHANGED <<store, borrow, guards, dropped, returned, nextIdent, call, outcome, iters>>
      ELSE
        /\ Dispatch(Ev)
        /\ LET e == Ev
               outOK == outcome' = e.out
               \* a presence query is a pure map query (C09): it borrows nothing, so no outcome of it is C08's business
-              c08side == (IsBP(outcome') \/ IsBP(e.out) \/ e.op \in GuardOps) /\ e.op \notin {"has_value", "has_value_raw"}
+              c08side == (IsBP(outcome') \/ IsBP(e.out) \/ e.op \in GuardOps \cup IterOps) /\ e.op \notin {"has_value", "has_value_raw"}
               \* "the try_/Option forms return None only when the resource is absent" is part of
               \* C08's statement (and "fetches agree with the map" of C09's): a PRESENT resource
               \* reported absent by a well-typed fetch clears the flags of both properties
@@ -167,7 +180,7 @@ TrPar ==
   /\ Is("par")
   /\ par' = TRUE
   /\ confs' = IF dead THEN {} ELSE {[br |-> borrow, pend |-> NoPend]}
-  /\ UNCHANGED <<store, borrow, guards, dropped, returned, nextIdent, call, outcome, dead, ok>>
+  /\ UNCHANGED <<store, borrow, guards, dropped, returned, nextIdent, call, outcome, iters, dead, ok>>
 
 ThreadOps == FetchOps \cup {"drop", "clone"}
 TPre(e) == /\ e.op \in ThreadOps /\ par
@@ -177,7 +190,7 @@ TPre(e) == /\ e.op \in ThreadOps /\ par
 
 TrTCall ==
   /\ Is("tcall")
-  /\ UNCHANGED <<store, borrow, guards, dropped, returned, nextIdent, call, outcome, par>>
+  /\ UNCHANGED <<store, borrow, guards, dropped, returned, nextIdent, call, outcome, iters, par>>
   /\ IF dead THEN UNCHANGED <<confs, dead, ok>>
      ELSE LET e == Ev IN
        IF ~TPre(e) \/ \E c \in confs : e.t \in DOMAIN c.pend
@@ -213,7 +226,7 @@ Close(CS) == CloseF(CS, CS)
 
 TrTRet ==
   /\ Is("tret")
-  /\ UNCHANGED <<store, borrow, dropped, returned, nextIdent, call, outcome, par>>
+  /\ UNCHANGED <<store, borrow, dropped, returned, nextIdent, call, outcome, iters, par>>
   /\ IF dead THEN UNCHANGED <<confs, guards, dead, ok>>
      ELSE LET e == Ev IN
        IF ~par \/ \E c \in confs : e.t \notin DOMAIN c.pend
@@ -231,7 +244,7 @@ TrTRet ==
 \* guard is in the middle of a write, i.e. unless two guards alias
 TrCanary ==
   /\ Is("canary")
-  /\ UNCHANGED <<store, borrow, guards, dropped, returned, nextIdent, call, outcome, par, confs, dead>>
+  /\ UNCHANGED <<store, borrow, guards, dropped, returned, nextIdent, call, outcome, iters, par, confs, dead>>
   /\ IF dead THEN UNCHANGED ok
      ELSE ok' = [ok EXCEPT !.c08can = @ /\ Ev.seen % 2 = 0, !.tool = @ /\ Ev.g \in DOMAIN guards]
 
@@ -239,7 +252,7 @@ TrCanary ==
 TrSync ==
   /\ Is("sync")
   /\ par' = FALSE /\ confs' = {}
-  /\ UNCHANGED <<store, guards, dropped, returned, nextIdent, call, outcome>>
+  /\ UNCHANGED <<store, guards, dropped, returned, nextIdent, call, outcome, iters>>
   /\ IF dead THEN UNCHANGED <<borrow, dead, ok>>
      ELSE IF ~par \/ \E c \in confs : c.pend # NoPend
      THEN dead' = TRUE /\ ok' = [ok EXCEPT !.tool = FALSE] /\ UNCHANGED borrow
@@ -258,7 +271,7 @@ TrSync ==
 \* be searched - a single failure (panic or None) is an outcome no behaviour of World.tla explains.
 TrRStorm ==
   /\ Is("rstorm")
-  /\ UNCHANGED <<store, borrow, guards, dropped, returned, nextIdent, call, outcome, par, confs>>
+  /\ UNCHANGED <<store, borrow, guards, dropped, returned, nextIdent, call, outcome, iters, par, confs>>
   /\ IF dead THEN UNCHANGED <<dead, ok>>
      ELSE LET e == Ev
               idset == {<<e.ids[i][1], e.ids[i][2]>> : i \in DOMAIN e.ids}
@@ -274,7 +287,7 @@ TrRStorm ==
 Known == {"reset", "call", "par", "tcall", "tret", "canary", "sync", "rstorm"}
 TrSkip ==
   /\ l <= Len(Rec) /\ Ev.ev \notin Known /\ l' = l + 1
-  /\ UNCHANGED <<store, borrow, guards, dropped, returned, nextIdent, call, outcome, dead, ok, par, confs>>
+  /\ UNCHANGED <<store, borrow, guards, dropped, returned, nextIdent, call, outcome, iters, dead, ok, par, confs>>
 
 TNext == TrReset \/ TrCall \/ TrPar \/ TrTCall \/ TrTRet \/ TrCanary \/ TrSync \/ TrRStorm \/ TrSkip
 Spec == TInit /\ [][TNext]_vars
